@@ -91,6 +91,7 @@ def search(ctx, hints):
         elif line.startswith('SAMPLE ') and len(samples) < 4:
             samples.append(dict(probe=line[7:300]))
     race_note = None
+    machinery_error = None
     if ctx.thorough():
         # concurrency evidence (not proof): the history / concurrency probe under the race detector
         rb, rlog = vlib.go_build(ctx, vlib.HARNESS, './cmd/c12', 'c12race', race=True)
@@ -102,20 +103,34 @@ def search(ctx, hints):
                 if line.startswith('VIOL '):
                     v = json.loads(line[5:])
                     viol.append(dict(key=v.get('key'), desc=v.get('desc'), replay=v.get('replay')))
-            # only reports whose stacks touch the EVM or the account state count: the node's own start-up
-            # (goleveldb opened by InitMiddleware) produces reports that have nothing to do with frames
+            # classify every race report by the innermost frame of its two racing accesses
             blocks = [b for b in se2.split('==================') if 'DATA RACE' in b]
-            mine = [b for b in blocks if '/src/vm/' in b or '/src/storage/account/' in b]
-            # the unsynchronised package-level cache of the ERC-20 ledger address (accountdb_eth.go:49/54,
-            # listed in global_writes_as_modelled): every AccountDB writes the same value into it; it is a data
-            # race of the code base but cannot make a frame leave a trace, so it is reported as evidence only
-            cache = [b for b in mine if 'loadContractCache' in b]
-            mine = [b for b in mine if 'loadContractCache' not in b]
+            mine, cache, harness_err, other = [], [], [], 0
+            for b in blocks:
+                inner = _race_innermost(b)
+                if len(inner) < 2:
+                    other += 1
+                    continue
+                kinds = [_race_kind(fn, path) for fn, path in inner[:2]]
+                if 'harness' in kinds:
+                    harness_err.append(b)
+                elif kinds[0] == 'path' and kinds[1] == 'path':
+                    if 'loadContractCache' in b or 'rpgContractAddress' in b:
+                        # unsynchronised package-level cache of the ERC-20 ledger address (accountdb_eth.go:49/54, listed in
+                        # global_writes_as_modelled): same-value writes, cannot make a frame leave a trace -> evidence only
+                        cache.append(b)
+                    else:
+                        mine.append(b)
+                else:
+                    other += 1
+            if harness_err:
+                machinery_error = ('harness error (not a finding about go-rangers): the race detector reports an access from harness / '
+                                   'verif-hook code racing with the node: ' + harness_err[0][:1800])
             if mine:
-                viol.append(dict(key='race:evm-on-distinct-states', desc='race detector report while EVMs ran on distinct AccountDBs: ' + mine[0][:2500],
+                viol.append(dict(key='race:evm-on-distinct-states', desc='both racing accesses are in go-rangers code under src/vm or src/storage/account while EVMs ran on distinct AccountDBs: ' + mine[0][:2500],
                                  replay=dict(cmd='go build -race ./cmd/c12 && c12race mode=history')))
             ran = 'history_rounds' in so2
-            race_note = 'race build ran mode=history n=2: rc=%d, probe completed=%s, race reports=%d (node start-up / goleveldb included), in vm or storage/account=%d, of which on the rpgContractAddress cache=%d (benign same-value writes, not a C12 violation)' % (rc2, ran, len(blocks), len(mine) + len(cache), len(cache))
+            race_note = 'race build ran mode=history n=2: rc=%d, probe completed=%s, race reports=%d; both accesses in src/vm or src/storage/account: %d, of which on the rpgContractAddress cache (benign same-value writes, evidence only): %d; involving harness code: %d; elsewhere (node start-up, goleveldb, loggers): %d' % (rc2, ran, len(blocks), len(mine) + len(cache), len(cache), len(harness_err), other)
             if not ran:
                 race_note += ' (probe did not complete: ' + se2[-200:].replace('\n', ' ') + ')'
         else:
@@ -124,7 +139,35 @@ def search(ctx, hints):
                violations=viol, samples=samples, stats=stats, concurrency_evidence=race_note)
     if rc != 0:
         res['error'] = 'searcher exited %d: %s' % (rc, (se or so)[-600:])
+    if machinery_error:
+        res['error'] = machinery_error
     return res
+
+
+def _race_innermost(block):
+    """innermost non-runtime frame (function, file path) of each racing access of one race-detector report"""
+    out = []
+    lines = block.split('\n')
+    for i, l in enumerate(lines):
+        if re.match(r'^(Read|Write|Previous read|Previous write|Atomic|Previous atomic)', l.strip()) and ' by ' in l:
+            j = i + 1
+            while j + 1 < len(lines):
+                fn, path = lines[j].strip(), lines[j + 1].strip()
+                if not fn or not path:
+                    break
+                if not fn.startswith('runtime.') and not fn.startswith('sync/atomic.') and not fn.startswith('internal/'):
+                    out.append((fn, path))
+                    break
+                j += 2
+    return out
+
+
+def _race_kind(fn, path):
+    if fn.startswith('main.') or 'verif/harness' in fn or '/harness/' in path or 'verif_' in os.path.basename(path.split(':')[0]):
+        return 'harness'
+    if ('/src/vm/' in path or '/src/storage/account/' in path):
+        return 'path'
+    return 'other'
 
 
 def replay(ctx, payload):
